@@ -375,7 +375,18 @@ func (resp *Response) AppendBody(p []byte) {
 		resp.hijackWriter.Write(p) //nolint:errcheck
 		return
 	}
-	resp.BodyBuffer().Write(p) //nolint:errcheck
+	resp.appendBuffer().Write(p) //nolint:errcheck
+}
+
+// appendBuffer returns the body buffer to append to. A body that was handed over with
+// SetBodyRaw is taken into the buffer first (BodyBuffer alone would drop it).
+func (resp *Response) appendBuffer() *bytebufferpool.ByteBuffer {
+	raw := resp.bodyRaw
+	buf := resp.BodyBuffer()
+	if raw != nil {
+		buf.Set(raw)
+	}
+	return buf
 }
 
 // AppendBodyString appends s to response body.
@@ -385,7 +396,7 @@ func (resp *Response) AppendBodyString(s string) {
 		resp.hijackWriter.Write(bytesconv.S2b(s)) //nolint:errcheck
 		return
 	}
-	resp.BodyBuffer().WriteString(s) //nolint:errcheck
+	resp.appendBuffer().WriteString(s) //nolint:errcheck
 }
 
 // ConnectionClose returns true if 'Connection: close' header is set.
